@@ -670,7 +670,8 @@ theorem readSong_build (f : Bytes) (size : Nat) (cs es : List (Bytes × Bytes)) 
 
 theorem readSong_of_parseMds (f : Bytes) (s : SongIn) (h : parseMds f = some s) :
     ∃ rd, readSong f = some rd ∧ rd.seq = s.seq ∧ rd.group = s.group ∧ rd.carried.map (toSlot rd.pcmd) = s.slots ∧
-      (∀ sl ∈ s.slots, 2 ≤ sl.addr ∧ sl.addr + 2 ≤ s.seq.length) ∧ disjointSlots s.slots = true ∧ s.seq.length ≤ 65536 := by
+      (∀ sl ∈ s.slots, 2 ≤ sl.addr ∧ sl.addr + 2 ≤ s.seq.length) ∧ disjointSlots s.slots = true ∧ s.seq.length ≤ 65536 ∧
+      2 ≤ s.seq.length := by
   unfold parseMds at h
   split at h
   · cases h
@@ -731,7 +732,7 @@ theorem readSong_of_parseMds (f : Bytes) (s : SongIn) (h : parseMds f = some s) 
           have hall' : ∀ sl ∈ slots, 2 ≤ sl.addr ∧ sl.addr + 2 ≤ seq.length := by
             intro sl hsl
             exact hall sl hsl
-          refine ⟨_, hrd, rfl, rfl, ?_, hall', hdisj, hseqlen⟩
+          refine ⟨_, hrd, rfl, rfl, ?_, hall', hdisj, hseqlen, hseq2⟩
           have hcar := carried_of_slots sdata pcmd es slots (fun e he => (k2 e he).1) hslots
             (fun sl hsl => by have := hall' sl hsl; omega)
           simp only [SongRead.carried, SongRead.sdata, ← hsd]
